@@ -1,6 +1,8 @@
 package model
 
 import (
+	"time"
+
 	networking "istio.io/api/networking/v1alpha3"
 	typev1beta1 "istio.io/api/type/v1beta1"
 	"istio.io/istio/pkg/cluster"
@@ -8,6 +10,14 @@ import (
 	"istio.io/istio/pkg/config/schema/gvk"
 	vp "istio.io/istio/pkg/zzvp"
 )
+
+// verifStamp: a creation timestamp is either absent (the zero Time, as for file / in-memory sources) or any instant.
+func verifStamp(name string) time.Time {
+	if vp.Choice(name+".unset", 2) == 1 {
+		return time.Time{}
+	}
+	return vp.Time(name)
+}
 
 var verifPerms3 = [][]int{{0, 1, 2}, {0, 2, 1}, {1, 0, 2}, {1, 2, 0}, {2, 0, 1}, {2, 1, 0}}
 
@@ -26,7 +36,7 @@ func VerifC17SortConfigs() {
 	verifDistinctIdentity(names, nss) // (namespace, name) is the object identity
 	base := make([]config.Config, 3)
 	for i := range base {
-		base[i] = config.Config{Meta: config.Meta{Name: names[i], Namespace: nss[i], CreationTimestamp: vp.Time(vp.Name("t", i)), UID: vp.Name("uid", i)}}
+		base[i] = config.Config{Meta: config.Meta{Name: names[i], Namespace: nss[i], CreationTimestamp: verifStamp(vp.Name("t", i)), UID: vp.Name("uid", i)}}
 	}
 	ref := sortConfigByCreationTime([]config.Config{base[0], base[1], base[2]})
 	perm := verifPerms3[1+vp.Choice("perm", 5)]
@@ -40,7 +50,7 @@ func VerifC17SortConfigs() {
 // K1: the comparator is a total order on identities: antisymmetric, transitive, zero only on identical identity.
 func VerifC17ComparatorOrder() {
 	mk := func(p string) config.Config {
-		return config.Config{Meta: config.Meta{Name: vp.String(p+".name", 2), Namespace: vp.String(p+".ns", 2), CreationTimestamp: vp.Time(p + ".t")}}
+		return config.Config{Meta: config.Meta{Name: vp.String(p+".name", 2), Namespace: vp.String(p+".ns", 2), CreationTimestamp: verifStamp(p + ".t")}}
 	}
 	a, b, c := mk("a"), mk("b"), mk("c")
 	ab, ba := configCompareByCreationTime(a, b), configCompareByCreationTime(b, a)
